@@ -89,6 +89,17 @@ def option_cases(tier):
         for r in (base if tier != "quick" else base[:2]):
             out.append(("T_ref_levels", list(perm), r))
             out.append(("S_omit_levels", list(perm), r))
+        # an outer C() without options around a coded factor inherits coding, reference AND level order
+        out.append(("C_of_C_levels", list(perm), None))
+        out.append(("C_of_T_ref_levels", list(perm), base[1]))
+        out.append(("C_of_S_omit_levels", list(perm), base[0]))
+        # the level order of an ordered categorical column is its category order, whatever the call
+        for r in base[:2]:
+            out.append(("T_ref_ordered", list(perm), r))
+            out.append(("S_omit_ordered", list(perm), r))
+            out.append(("C_Treatment_ref_ordered", list(perm), r))
+        out.append(("C_plain_ordered", list(perm), None))
+        out.append(("C_of_T_ref_ordered", list(perm), base[1]))
     for r in base:
         out.append(("T_ref", None, r))
         out.append(("S_omit", None, r))
@@ -126,11 +137,14 @@ def harness(env, case):
     kvals = [data_levels[(i * step + 1) % L] for i in range(2 * L)]
     n = len(kvals)
     x = env.column("x", n)
-    df = env.frame({"y": env.column("y", n), "x": x, "k": np.array(kvals, dtype=np.int64)})
     order = list(lv) if lv else list(data_levels)
-    call = {"C_levels": "C(k, levels=lv)", "C_levels5": "C(k, levels=lv)", "T_ref_levels": f"T(k, {r}, levels=lv)", "S_omit_levels": f"S(k, {r}, levels=lv)", "T_ref": f"T(k, {r})", "S_omit": f"S(k, {r})",
+    kcol = pd.Categorical(kvals, categories=order, ordered=True) if kind.endswith("_ordered") else np.array(kvals, dtype=np.int64)
+    df = env.frame({"y": env.column("y", n), "x": x, "k": kcol})
+    call = {"C_of_C_levels": "C(C(k, levels=lv))", "C_of_T_ref_levels": f"C(T(k, {r}, levels=lv))", "C_of_S_omit_levels": f"C(S(k, {r}, levels=lv))",
+            "T_ref_ordered": f"T(k, {r})", "S_omit_ordered": f"S(k, {r})", "C_Treatment_ref_ordered": f"C(k, Treatment({r}))", "C_plain_ordered": "C(k)", "C_of_T_ref_ordered": f"C(T(k, {r}))",
+            "C_levels": "C(k, levels=lv)", "C_levels5": "C(k, levels=lv)", "T_ref_levels": f"T(k, {r}, levels=lv)", "S_omit_levels": f"S(k, {r}, levels=lv)", "T_ref": f"T(k, {r})", "S_omit": f"S(k, {r})",
             "C_Treatment_ref": f"C(k, Treatment({r}))", "C_Sum_omit": f"C(k, Sum({r}))", "C_plain": "C(k)", "S_plain": "S(k)"}[kind]
-    is_sum = kind.startswith("S_") or kind == "C_Sum_omit"
+    is_sum = kind.startswith("S_") or kind in ("C_Sum_omit", "C_of_S_omit_levels")
     if is_sum:
         dropped = r if r is not None else order[-1]
     else:
